@@ -411,7 +411,7 @@ theorem rRepeatedBool_loop1 : ∀ fuel field dec v, rRepeatedBool.loop1 field fu
   intro fuel
   induction fuel with
   | zero => intros; rfl
-  | succ n ih => intros; unfold rRepeatedBool.loop1 gRepLoop; simp only [ih, rRepeatedBool_loop2]; rfl
+  | succ n ih => intros; unfold rRepeatedBool.loop1 gRepLoop; simp only [ih, rRepeatedBool_loop2]; first | rfl | (simp only [bind, Res.bind, pure]; grind)
 
 theorem rRepeatedBool_shape : rRepeatedBool = gRepeated 0 "expected wire type Varint" "unable to parse Varint" consumeVarint (fun x => decide ((x ≠ 0))) := by
   funext field dec v
@@ -433,7 +433,7 @@ theorem rRepeatedInt32_loop1 : ∀ fuel field dec v, rRepeatedInt32.loop1 field 
   intro fuel
   induction fuel with
   | zero => intros; rfl
-  | succ n ih => intros; unfold rRepeatedInt32.loop1 gRepLoop; simp only [ih, rRepeatedInt32_loop2]; rfl
+  | succ n ih => intros; unfold rRepeatedInt32.loop1 gRepLoop; simp only [ih, rRepeatedInt32_loop2]; first | rfl | (simp only [bind, Res.bind, pure]; grind)
 
 theorem rRepeatedInt32_shape : rRepeatedInt32 = gRepeated 0 "expected wire type Varint" "unable to parse Varint" consumeVarint (fun x => Go.wrapS 32 (Int.ofNat x)) := by
   funext field dec v
@@ -455,7 +455,7 @@ theorem rRepeatedInt64_loop1 : ∀ fuel field dec v, rRepeatedInt64.loop1 field 
   intro fuel
   induction fuel with
   | zero => intros; rfl
-  | succ n ih => intros; unfold rRepeatedInt64.loop1 gRepLoop; simp only [ih, rRepeatedInt64_loop2]; rfl
+  | succ n ih => intros; unfold rRepeatedInt64.loop1 gRepLoop; simp only [ih, rRepeatedInt64_loop2]; first | rfl | (simp only [bind, Res.bind, pure]; grind)
 
 theorem rRepeatedInt64_shape : rRepeatedInt64 = gRepeated 0 "expected wire type Varint" "unable to parse Varint" consumeVarint (fun x => Go.wrapS 64 (Int.ofNat x)) := by
   funext field dec v
@@ -477,7 +477,7 @@ theorem rRepeatedUint32_loop1 : ∀ fuel field dec v, rRepeatedUint32.loop1 fiel
   intro fuel
   induction fuel with
   | zero => intros; rfl
-  | succ n ih => intros; unfold rRepeatedUint32.loop1 gRepLoop; simp only [ih, rRepeatedUint32_loop2]; rfl
+  | succ n ih => intros; unfold rRepeatedUint32.loop1 gRepLoop; simp only [ih, rRepeatedUint32_loop2]; first | rfl | (simp only [bind, Res.bind, pure]; grind)
 
 theorem rRepeatedUint32_shape : rRepeatedUint32 = gRepeated 0 "expected wire type Varint" "unable to parse Varint" consumeVarint (fun x => (x % 4294967296)) := by
   funext field dec v
@@ -499,7 +499,7 @@ theorem rRepeatedUint64_loop1 : ∀ fuel field dec v, rRepeatedUint64.loop1 fiel
   intro fuel
   induction fuel with
   | zero => intros; rfl
-  | succ n ih => intros; unfold rRepeatedUint64.loop1 gRepLoop; simp only [ih, rRepeatedUint64_loop2]; rfl
+  | succ n ih => intros; unfold rRepeatedUint64.loop1 gRepLoop; simp only [ih, rRepeatedUint64_loop2]; first | rfl | (simp only [bind, Res.bind, pure]; grind)
 
 theorem rRepeatedUint64_shape : rRepeatedUint64 = gRepeated 0 "expected wire type Varint" "unable to parse Varint" consumeVarint (fun x => x) := by
   funext field dec v
@@ -521,7 +521,7 @@ theorem rRepeatedSint32_loop1 : ∀ fuel field dec v, rRepeatedSint32.loop1 fiel
   intro fuel
   induction fuel with
   | zero => intros; rfl
-  | succ n ih => intros; unfold rRepeatedSint32.loop1 gRepLoop; simp only [ih, rRepeatedSint32_loop2]; rfl
+  | succ n ih => intros; unfold rRepeatedSint32.loop1 gRepLoop; simp only [ih, rRepeatedSint32_loop2]; first | rfl | (simp only [bind, Res.bind, pure]; grind)
 
 theorem rRepeatedSint32_shape : rRepeatedSint32 = gRepeated 0 "expected wire type Varint" "unable to parse Varint" consumeVarint (fun x => Go.decodeZigZag32 (x % 4294967296)) := by
   funext field dec v
@@ -543,7 +543,7 @@ theorem rRepeatedSint64_loop1 : ∀ fuel field dec v, rRepeatedSint64.loop1 fiel
   intro fuel
   induction fuel with
   | zero => intros; rfl
-  | succ n ih => intros; unfold rRepeatedSint64.loop1 gRepLoop; simp only [ih, rRepeatedSint64_loop2]; rfl
+  | succ n ih => intros; unfold rRepeatedSint64.loop1 gRepLoop; simp only [ih, rRepeatedSint64_loop2]; first | rfl | (simp only [bind, Res.bind, pure]; grind)
 
 theorem rRepeatedSint64_shape : rRepeatedSint64 = gRepeated 0 "expected wire type Varint" "unable to parse Varint" consumeVarint (fun x => Go.decodeZigZag x) := by
   funext field dec v
@@ -565,7 +565,7 @@ theorem rRepeatedFixed32_loop1 : ∀ fuel field dec v, rRepeatedFixed32.loop1 fi
   intro fuel
   induction fuel with
   | zero => intros; rfl
-  | succ n ih => intros; unfold rRepeatedFixed32.loop1 gRepLoop; simp only [ih, rRepeatedFixed32_loop2]; rfl
+  | succ n ih => intros; unfold rRepeatedFixed32.loop1 gRepLoop; simp only [ih, rRepeatedFixed32_loop2]; first | rfl | (simp only [bind, Res.bind, pure]; grind)
 
 theorem rRepeatedFixed32_shape : rRepeatedFixed32 = gRepeated 5 "expected wire type Fixed32" "unable to parse Fixed32" consumeFixed32 (fun x => x) := by
   funext field dec v
@@ -587,7 +587,7 @@ theorem rRepeatedSfixed32_loop1 : ∀ fuel field dec v, rRepeatedSfixed32.loop1 
   intro fuel
   induction fuel with
   | zero => intros; rfl
-  | succ n ih => intros; unfold rRepeatedSfixed32.loop1 gRepLoop; simp only [ih, rRepeatedSfixed32_loop2]; rfl
+  | succ n ih => intros; unfold rRepeatedSfixed32.loop1 gRepLoop; simp only [ih, rRepeatedSfixed32_loop2]; first | rfl | (simp only [bind, Res.bind, pure]; grind)
 
 theorem rRepeatedSfixed32_shape : rRepeatedSfixed32 = gRepeated 5 "expected wire type Fixed32" "unable to parse Fixed32" consumeFixed32 (fun x => Go.wrapS 32 (Int.ofNat x)) := by
   funext field dec v
@@ -609,7 +609,7 @@ theorem rRepeatedFloat_loop1 : ∀ fuel field dec v, rRepeatedFloat.loop1 field 
   intro fuel
   induction fuel with
   | zero => intros; rfl
-  | succ n ih => intros; unfold rRepeatedFloat.loop1 gRepLoop; simp only [ih, rRepeatedFloat_loop2]; rfl
+  | succ n ih => intros; unfold rRepeatedFloat.loop1 gRepLoop; simp only [ih, rRepeatedFloat_loop2]; first | rfl | (simp only [bind, Res.bind, pure]; grind)
 
 theorem rRepeatedFloat_shape : rRepeatedFloat = gRepeated 5 "expected wire type Fixed32" "unable to parse Fixed32" consumeFixed32 (fun x => Go.float32frombits x) := by
   funext field dec v
@@ -631,7 +631,7 @@ theorem rRepeatedFixed64_loop1 : ∀ fuel field dec v, rRepeatedFixed64.loop1 fi
   intro fuel
   induction fuel with
   | zero => intros; rfl
-  | succ n ih => intros; unfold rRepeatedFixed64.loop1 gRepLoop; simp only [ih, rRepeatedFixed64_loop2]; rfl
+  | succ n ih => intros; unfold rRepeatedFixed64.loop1 gRepLoop; simp only [ih, rRepeatedFixed64_loop2]; first | rfl | (simp only [bind, Res.bind, pure]; grind)
 
 theorem rRepeatedFixed64_shape : rRepeatedFixed64 = gRepeated 1 "expected wire type Fixed64" "unable to parse Fixed64" consumeFixed64 (fun x => x) := by
   funext field dec v
@@ -653,7 +653,7 @@ theorem rRepeatedSfixed64_loop1 : ∀ fuel field dec v, rRepeatedSfixed64.loop1 
   intro fuel
   induction fuel with
   | zero => intros; rfl
-  | succ n ih => intros; unfold rRepeatedSfixed64.loop1 gRepLoop; simp only [ih, rRepeatedSfixed64_loop2]; rfl
+  | succ n ih => intros; unfold rRepeatedSfixed64.loop1 gRepLoop; simp only [ih, rRepeatedSfixed64_loop2]; first | rfl | (simp only [bind, Res.bind, pure]; grind)
 
 theorem rRepeatedSfixed64_shape : rRepeatedSfixed64 = gRepeated 1 "expected wire type Fixed64" "unable to parse Fixed64" consumeFixed64 (fun x => Go.wrapS 64 (Int.ofNat x)) := by
   funext field dec v
@@ -675,7 +675,7 @@ theorem rRepeatedDouble_loop1 : ∀ fuel field dec v, rRepeatedDouble.loop1 fiel
   intro fuel
   induction fuel with
   | zero => intros; rfl
-  | succ n ih => intros; unfold rRepeatedDouble.loop1 gRepLoop; simp only [ih, rRepeatedDouble_loop2]; rfl
+  | succ n ih => intros; unfold rRepeatedDouble.loop1 gRepLoop; simp only [ih, rRepeatedDouble_loop2]; first | rfl | (simp only [bind, Res.bind, pure]; grind)
 
 theorem rRepeatedDouble_shape : rRepeatedDouble = gRepeated 1 "expected wire type Fixed64" "unable to parse Fixed64" consumeFixed64 (fun x => Go.float64frombits x) := by
   funext field dec v
@@ -690,7 +690,7 @@ theorem rRepeatedString_loop1 : ∀ fuel field dec v, rRepeatedString.loop1 fiel
   intro fuel
   induction fuel with
   | zero => intros; rfl
-  | succ n ih => intros; unfold rRepeatedString.loop1 gRepULoop; simp only [ih]
+  | succ n ih => intros; unfold rRepeatedString.loop1 gRepULoop; simp only [ih] <;> first | rfl | (simp only [bind, Res.bind, pure]; grind)
 
 theorem rRepeatedString_shape : rRepeatedString = gRepU "unable to parse String" := by
   funext field dec v
@@ -705,7 +705,7 @@ theorem rRepeatedBytes_loop1 : ∀ fuel field dec v, rRepeatedBytes.loop1 field 
   intro fuel
   induction fuel with
   | zero => intros; rfl
-  | succ n ih => intros; unfold rRepeatedBytes.loop1 gRepULoop; simp only [ih]
+  | succ n ih => intros; unfold rRepeatedBytes.loop1 gRepULoop; simp only [ih] <;> first | rfl | (simp only [bind, Res.bind, pure]; grind)
 
 theorem rRepeatedBytes_shape : rRepeatedBytes = gRepU "unable to parse Bytes" := by
   funext field dec v
